@@ -158,25 +158,28 @@ type Outcome struct {
 }
 
 // Run executes inst on a copy of in and stores the post-state in out.
-func (m *Machine) Run(inst *insts.Inst, in, out *State) (oc Outcome) {
+func (m *Machine) Run(inst *insts.Inst, in, out *State) Outcome {
+	out.CopyFrom(in)
+	return m.RunInPlace(inst, out)
+}
+
+// RunInPlace executes inst directly on s: the wavefront's register files and
+// LDS are pointed at the state's own buffers (they are plain exported byte
+// slices of emu.Wavefront), so s holds the post-state afterwards.
+func (m *Machine) RunInPlace(inst *insts.Inst, s *State) (oc Outcome) {
 	wf := m.wf
-	copy(wf.VRegFile, in.V)
-	copy(wf.SRegFile, in.S)
-	wf.SetVCC(in.VCC)
-	wf.SetEXEC(in.EXEC)
-	wf.SetSCC(in.SCC)
-	wf.M0 = in.M0
-	wf.SetPC(in.PC)
+	wf.VRegFile = s.V
+	wf.SRegFile = s.S
+	wf.SetVCC(s.VCC)
+	wf.SetEXEC(s.EXEC)
+	wf.SetSCC(s.SCC)
+	wf.M0 = s.M0
+	wf.SetPC(s.PC)
 	wf.VerifSetInst(inst)
-	var lds []byte
-	if in.LDS != nil {
-		lds = out.LDS
-		copy(lds, in.LDS)
-	}
-	wf.LDS = lds
-	m.alu.SetLDS(lds)
-	if in.Mem != nil {
-		if err := m.storage.Write(PhysBase, in.Mem); err != nil {
+	wf.LDS = s.LDS
+	m.alu.SetLDS(s.LDS)
+	if s.Mem != nil {
+		if err := m.storage.Write(PhysBase, s.Mem); err != nil {
 			panic(err)
 		}
 	}
@@ -192,17 +195,17 @@ func (m *Machine) Run(inst *insts.Inst, in, out *State) (oc Outcome) {
 		}()
 		m.alu.Run(wf)
 	}()
-	copy(out.V, wf.VRegFile)
-	copy(out.S, wf.SRegFile)
-	out.VCC, out.EXEC, out.SCC, out.M0, out.PC = wf.VCC(), wf.EXEC(), wf.SCC(), wf.M0, wf.PC()
-	if in.Mem != nil {
-		d, err := m.storage.Read(PhysBase, uint64(len(in.Mem)))
+	s.VCC, s.EXEC, s.SCC, s.M0, s.PC = wf.VCC(), wf.EXEC(), wf.SCC(), wf.M0, wf.PC()
+	if s.Mem != nil {
+		d, err := m.storage.Read(PhysBase, uint64(len(s.Mem)))
 		if err != nil {
 			panic(err)
 		}
-		copy(out.Mem, d)
+		copy(s.Mem, d)
 	}
-	oc.Accesses = append([]Access(nil), m.rec.log...)
+	if len(m.rec.log) > 0 {
+		oc.Accesses = append([]Access(nil), m.rec.log...)
+	}
 	return oc
 }
 
